@@ -160,6 +160,11 @@ fn run(case: &VCase, out: &mut VOutcome, log: &mut Vec<u8>) -> Result<(), Failur
                 let r = idx.insert_batch(entries);
                 log.extend_from_slice(format!("{i} insert_batch {} -> {}\n", entries.len(), r.is_ok()).as_bytes());
                 if r.is_ok() {
+                    // an accepted batch into an index whose every vector was deleted may legitimately re-fix the
+                    // dimension (same leniency as for a single insert)
+                    if live.is_empty() && !entries.is_empty() && entries.iter().all(|(_, v)| v.len() == entries[0].1.len()) {
+                        dim = 0;
+                    }
                     for (id, v) in entries {
                         let mut d2 = dim;
                         if !model_insert(&mut live, &mut d2, *id, v) {
